@@ -138,18 +138,18 @@ def _freeze(v):
 
 
 def parse_tagged(out, tag):
-    """All printed tuples <<"tag", ...>> in TLC output."""
+    """All printed tuples <<"tag", ...>> in TLC output (TLC wraps long values)."""
     res = []
-    needle = f'<<"{tag}"'
+    pat = re.compile(r'<<\s*"' + re.escape(tag) + '"')
     i = 0
     while True:
-        i = out.find(needle, i)
-        if i < 0:
+        m = pat.search(out, i)
+        if not m:
             return res
         try:
-            v, j = _parse_value(out, i)
+            v, j = _parse_value(out, m.start())
         except (ValueError, IndexError):
-            i += len(needle)
+            i = m.end()
             continue
         res.append(v)
         i = j
@@ -409,4 +409,7 @@ def features_of(ev, prog):
         x = regs[ins[0]]
         feats["kind"] = x.get("kind", x.get("t"))
         feats["sym"] = x.get("sym", "")
+        c = ev.get("args", {}).get("c")
+        if isinstance(c, list) and len(c) == 2:
+            feats["arg_c_odd"] = bool((c[0] + c[1]) % 2)
     return feats
